@@ -38,7 +38,7 @@ fn hay_needle(class: &str, hl: usize, nl: usize, rng: &mut Rng) -> (Vec<u8>, Vec
 
 fn fam_findsub(cx: &mut Cx) {
     let lens: Vec<usize> = lengths(cx).into_iter().filter(|&n| n > 0).collect();
-    let nlens: Vec<usize> = if cx.thorough { vec![1, 2, 3, 4, 5, 7, 8, 9, 15, 16, 17, 18, 31, 32, 33, 34, 40, 64, 65] } else { vec![1, 2, 3, 4, 8, 15, 16, 17, 32, 33, 40] };
+    let nlens: Vec<usize> = if cx.thorough { vec![1, 2, 3, 4, 5, 7, 8, 9, 15, 16, 17, 18, 31, 32, 33, 34, 40, 64, 65] } else { vec![1, 2, 4, 8, 15, 16, 17, 33] };
     for (name, f, ascii) in findsub_subjects() {
         if !cx.subject(name, "find_sub", "") {
             continue;
@@ -56,7 +56,7 @@ fn fam_findsub(cx: &mut Cx) {
                 } else if cx.thorough {
                     vec!["zeros", "ramp", "high", "random"]
                 } else {
-                    vec![["zeros", "ramp", "high", "random"][k % 4], ["high", "random", "zeros", "ramp"][(k / 4) % 4]]
+                    vec![["zeros", "ramp", "high", "random"][k % 4]]
                 };
                 for class in classes {
                     let (h, nd) = hay_needle(class, hl, nl, &mut rng);
@@ -65,7 +65,8 @@ fn fam_findsub(cx: &mut Cx) {
             }
         }
         // near misses (expensive for the judge: a few sizes)
-        for &(hl, nl) in [(33usize, 2usize), (33, 4), (70, 4), (70, 16), (70, 17), (130, 3), (130, 16), (130, 33)].iter() {
+        let near: Vec<(usize, usize)> = if cx.thorough { vec![(33, 2), (33, 4), (70, 4), (70, 16), (70, 17), (130, 3), (130, 16), (130, 33)] } else { vec![(33, 4), (70, 16), (70, 17), (130, 3)] };
+        for &(hl, nl) in near.iter() {
             let (h, nd) = hay_needle("nearmiss", hl, nl, &mut rng);
             findsub_batch(cx, &f, &h, &nd, "nearmiss");
         }
@@ -133,7 +134,7 @@ fn findany_subjects() -> Vec<(&'static str, SubFn)> {
 
 fn fam_findany(cx: &mut Cx) {
     let lens: Vec<usize> = lengths(cx).into_iter().filter(|&n| n > 0).collect();
-    let sizes: Vec<usize> = if cx.thorough { vec![1, 2, 3, 5, 8, 15, 16, 17, 20, 32, 33] } else { vec![1, 2, 5, 16, 17, 20, 33] };
+    let sizes: Vec<usize> = if cx.thorough { vec![1, 2, 3, 5, 8, 15, 16, 17, 20, 32, 33] } else { vec![1, 3, 16, 17, 33] };
     for (name, f) in findany_subjects() {
         if !cx.subject(name, "find_any", "") {
             continue;
